@@ -10,7 +10,10 @@ the type checker walks the unit: the overloads **declared above the call** in th
 * `N::f(..)`: those of `namespace N` (however many times it was reopened);
 * an unqualified call inside `namespace N`: N's if N has declared one above the call, else the root's;
 * a call of a method: **every** method of that struct, above or below the caller (and none of another struct's);
-* a name the compiler has overloads of: those (they lead the sequence) and the user's above the call.
+* a name the compiler has overloads of: those (they lead the sequence) and the user's above the call;
+* a struct, enum, typedef, cbuffer or namespace of the same name is not a candidate and takes no candidate away, wherever
+  it stands among the declarations; a scope that declares no function of the name but a type of it knows the name as
+  that type (an unqualified call inside `namespace N` then does not reach the root's overloads).
 
 Definitions of functions declared before, other call sites, helper templates and their instantiations are not
 declarations of the name: they do not occur in this definition at all.
@@ -24,21 +27,41 @@ def declared (scope : Nat) : List SeqItem → List TCand
   | .decl s c :: is => if s = scope then c :: declared scope is else declared scope is
   | _ :: is => declared scope is
 
-/-- the candidates visible at a call with lookup `mode` that stands between `pre` and `post`; `none` = the name is unknown there -/
-def visibleAt (p : SeqPath) (pre post : List SeqItem) (mode : Nat) : Option (List TCand) :=
-  let v := match p with
-    | .method =>
-      match mode with
-      | 2 => declared 1 (pre ++ post)
-      | 3 => declared 1 (pre ++ post)
-      | _ => declared 0 (pre ++ post)
-    | .intrinsic => allDeclared pre
-    | .free =>
-      match mode with
-      | 1 => declared 1 pre
-      | 2 => if (declared 1 pre).isEmpty then declared 0 pre else declared 1 pre
-      | _ => declared 0 pre
-  if v.isEmpty then none else some v
+/-- does a stretch of the unit declare a type (struct, enum, typedef) of the name in that scope -/
+def declaresType (scope : Nat) : List SeqItem → Bool
+  | [] => false
+  | .other s k :: is => (s = scope && k.isType) || declaresType scope is
+  | _ :: is => declaresType scope is
+
+/-- the same in any scope (an intrinsic's name lives in the root scope only) -/
+def declaresTypeAnywhere : List SeqItem → Bool
+  | [] => false
+  | .other _ k :: is => k.isType || declaresTypeAnywhere is
+  | _ :: is => declaresTypeAnywhere is
+
+/-- what one scope knows of the name: **every function of the name declared there** — whatever else of that name
+    (struct, enum, typedef, cbuffer, namespace) stands before, between or after them —; without a function, the type of
+    that name if one is declared; a cbuffer block or a namespace alone is neither a value nor a type -/
+def scopeKnows (fns : List TCand) (type : Bool) : Found :=
+  if !fns.isEmpty then .functions fns else if type then .type else .nothing
+
+/-- the candidates visible at a call with lookup `mode` that stands between `pre` and `post`; `.nothing` = the name is
+    unknown there, `.type` = the innermost scope that knows the name declares a type of it and no function -/
+def visibleAt (p : SeqPath) (pre post : List SeqItem) (mode : Nat) : Found :=
+  match p with
+  | .method =>
+    match mode with
+    | 2 => scopeKnows (declared 1 (pre ++ post)) false
+    | 3 => scopeKnows (declared 1 (pre ++ post)) false
+    | _ => scopeKnows (declared 0 (pre ++ post)) false
+  | .intrinsic => scopeKnows (allDeclared pre) (declaresTypeAnywhere pre)
+  | .free =>
+    let root := scopeKnows (declared 0 pre) (declaresType 0 pre)
+    let ns := scopeKnows (declared 1 pre) (declaresType 1 pre)
+    match mode with
+    | 1 => ns
+    | 2 => if ns = .nothing then root else ns
+    | _ => root
 
 /-- the items that declare something a *later ordinary call site* can be affected by: everything but call sites and
     calls that instantiate a helper -/
